@@ -303,6 +303,7 @@ type imgCase struct {
 	Seed  uint64
 	Deep  bool
 	Slow  bool // solo re-run of a case whose first run hit a time limit: limits ×10
+	Deep2 int  // > 0: also crash DURING the recovery of this image at that many PRNG points of the recovery's own journal
 }
 
 type loaded struct {
@@ -369,6 +370,15 @@ type imgResult struct {
 	Acked    int
 	Frontier uint64
 	Err      string
+	D2       []d2Result // crashes during recovery (second-level images)
+}
+
+type d2Result struct {
+	P2, Len2 int
+	Model    int
+	Info     fsjournal.Info
+	Branch   string
+	Problems []ledger.Problem
 }
 
 func checkImage(scratch string, i int, data []byte) []byte {
@@ -399,8 +409,105 @@ func checkImage(scratch string, i int, data []byte) []byte {
 			res.TimedOut = true
 		}
 	}
+	if ic.Deep2 > 0 && res.Branch != "open-failed" && !res.TimedOut {
+		res.D2 = crashDuringRecovery(l, ic, scratch, i)
+		for _, d := range res.D2 {
+			for _, p := range d.Problems {
+				if strings.Contains(p.Detail, "deadline exceeded") {
+					res.TimedOut = true
+				}
+			}
+		}
+	}
 	b, _ := json.Marshal(res)
 	return b
+}
+
+// crashDuringRecovery: the level-1 image is materialized twice (same PRNG, identical): on one copy the
+// recovery itself (Open, settling of the precommitted backlog, indexing, Close) runs under the FS journal;
+// second-level images are that journal cut at PRNG points and applied, under the three loss models, on top
+// of the pristine copy (whose content is all durable: it is what the first crash left). Each second-level
+// image must satisfy the same obligations R1-R6: recovery acknowledges nothing new.
+func crashDuringRecovery(l *loaded, ic imgCase, scratch string, i int) (out []d2Result) {
+	base := filepath.Join(scratch, fmt.Sprintf("img%d-base", i))
+	work := filepath.Join(scratch, fmt.Sprintf("img%d-work", i))
+	defer os.RemoveAll(base)
+	defer os.RemoveAll(work)
+	for _, d := range []string{base, work} {
+		os.RemoveAll(d)
+		r := rand.New(rand.NewPCG(ic.Seed, uint64(ic.P)))
+		if _, err := fsjournal.Materialize(l.tr, ic.P, fsjournal.Model(ic.Model), r, d); err != nil {
+			return nil
+		}
+	}
+	j := hook.NewJournal()
+	hook.Install(&hook.Config{Seed: int64(ic.Seed), Journal: j})
+	func() {
+		defer hook.Uninstall()
+		st, err := store.Open(work, l.tf.Cfg.options())
+		if err != nil {
+			return
+		}
+		defer st.Close()
+		if l.tf.Cfg.ExtAllow {
+			st.SetExternalCommitAllowance(true)
+		}
+		lim := 30 * time.Second
+		if ic.Slow {
+			lim *= 10
+		}
+		if pre := st.LastPrecommittedTxID(); !l.tf.Cfg.ExtAllow && pre > st.LastCommittedTxID() {
+			ctx, cancel := context.WithTimeout(context.Background(), lim)
+			st.WaitForTx(ctx, pre, false)
+			cancel()
+		}
+		if n := st.LastCommittedTxID(); n > 0 {
+			ctx, cancel := context.WithTimeout(context.Background(), lim)
+			st.WaitForIndexingUpto(ctx, n)
+			cancel()
+		}
+	}()
+	t2 := fsjournal.Relativize(j.Events(), work)
+	n2 := len(t2.Events)
+	if n2 == 0 {
+		return nil
+	}
+	r := rand.New(rand.NewPCG(ic.Seed^0xd2, uint64(ic.P)))
+	pts := map[int]bool{}
+	for k := 0; k < ic.Deep2; k++ {
+		pts[r.IntN(n2+1)] = true
+	}
+	// right before and after a PRNG-chosen fsync / directory operation of the recovery
+	var special []int
+	for k, e := range t2.Events {
+		if e.Op != hook.OpWrite && e.Op != hook.OpMark {
+			special = append(special, k)
+		}
+	}
+	if len(special) > 0 {
+		k := special[r.IntN(len(special))]
+		pts[k], pts[k+1] = true, true
+	}
+	ps := make([]int, 0, len(pts))
+	for p2 := range pts {
+		ps = append(ps, p2)
+	}
+	sort.Ints(ps)
+	for _, p2 := range ps {
+		m2 := []int{0, 1, 2, 2}[r.IntN(4)]
+		dir := filepath.Join(scratch, fmt.Sprintf("img%d-d2", i))
+		os.RemoveAll(dir)
+		info, err := fsjournal.MaterializeOn(base, t2, p2, fsjournal.Model(m2), rand.New(rand.NewPCG(ic.Seed^0xd2d2, uint64(p2))), dir)
+		if err != nil {
+			os.RemoveAll(dir)
+			continue
+		}
+		d := d2Result{P2: p2, Len2: n2, Model: m2, Info: info}
+		d.Problems, d.Branch, _, _ = recoverAndCheck(l, ic, dir)
+		os.RemoveAll(dir)
+		out = append(out, d)
+	}
+	return out
 }
 
 func recoverAndCheck(l *loaded, ic imgCase, dir string) (ps []ledger.Problem, branch string, nacked int, frontier uint64) {
@@ -701,7 +808,7 @@ func Run(c *fw.Ctx) {
 		replay(c)
 		return
 	}
-	c.Rule = "traces = real synced workloads journaled at os.File level (writes with offsets and bytes, fsyncs, dir fsyncs, removals, renames) with ack/issued markers; a case = (trace, journal index p, loss model M0 kill / M1 nothing un-fsynced / M2 per-file prefix + torn last write); on each materialized image: R1 open, R2 acknowledged txs identical, R3 dense chained frontier made only of issued txs, R4 dual proof from an acknowledged state, R5 index agrees with the log, R6 new commit; distinct = (journal event kind at p × model × recovery shape × image traits)"
+	c.Rule = "traces = real synced workloads journaled at os.File level (writes with offsets and bytes, fsyncs, dir fsyncs, removals, renames) with ack/issued markers; a case = (trace, journal index p, loss model M0 kill / M1 nothing un-fsynced / M2 per-file prefix + torn last write); on each materialized image: R1 open, R2 acknowledged txs identical, R3 dense chained frontier made only of issued txs, R4 dual proof from an acknowledged state, R5 index agrees with the log, R6 new commit; one level-1 image in twelve is also crashed DURING its own recovery (the recovery's journal cut at PRNG points, same loss models, same obligations); distinct = (journal event kind at p × model × recovery shape × image traits)"
 	c.Assume("a crash image contains, per file, its fsynced content plus (M2) a prefix of the later writes; arbitrary subsets of un-fsynced writes are not generated (the property quantifies over per-file prefixes)")
 	c.Assume("directory entries become durable at the directory fsync that follows (strict POSIX); M0 keeps every issued write")
 	r := c.Rand("c03/traces")
@@ -795,6 +902,9 @@ func Run(c *fw.Ctx) {
 			}
 			for k, m := range models {
 				ic := imgCase{Trace: cf.Dir, P: p, Model: m, Seed: uint64(c.Seed)*7919 + uint64(k)}
+				if pr.IntN(12) == 0 {
+					ic.Deep2 = 4
+				}
 				b, _ := json.Marshal(ic)
 				cases = append(cases, b)
 				meta = append(meta, ic)
@@ -840,6 +950,15 @@ func Run(c *fw.Ctx) {
 			if sampled < 4 && res.Acked > 0 {
 				sampled++
 				c.Sample(map[string]any{"case": where, "event_at_p": res.Info.KindAtP, "files": res.Info.Files, "torn_writes": res.Info.TornWrites, "dropped_writes": res.Info.DroppedWrite, "acked_before_p": res.Acked, "recovered_frontier": res.Frontier, "recovery": res.Branch})
+			}
+			for _, d := range res.D2 {
+				c.Eval(1)
+				c.Count("images_during_recovery", 1)
+				c.Distinct(fmt.Sprintf("during-recovery/at=%s/%s/%s/after-%s", d.Info.KindAtP, fsjournal.Model(d.Model), d.Branch, fsjournal.Model(ic.Model)))
+				for _, p := range d.Problems {
+					c.Violation(p.Sig+"/crash-during-recovery", fmt.Sprintf("[%s; second crash at event %d of %d of the recovery's own journal (%s), model %s] %s", where, d.P2, d.Len2, d.Info.KindAtP, fsjournal.Model(d.Model), p.Detail),
+						map[string][]byte{"case.json": cases[rs.Index]})
+				}
 			}
 			for _, p := range res.Problems {
 				files := map[string][]byte{"case.json": cases[rs.Index]}
